@@ -38,7 +38,14 @@ impl Op {
         match self {
             Op::Add(v) => format!("add({v})"),
             Op::Bind(a, b, l) => format!("bind({a},{b},{})", crate::menu::lab_text(*l)),
-            Op::Put(v, d) => format!("put({v},{})", crate::menu::hex_text(&crate::menu::dat_bytes(*d))),
+            Op::Put(v, d) => {
+                let b = crate::menu::dat_bytes(*d);
+                if b.len() > 24 {
+                    format!("put({v},<{} bytes {}...>)", b.len(), crate::menu::hex_text(&b[..4]))
+                } else {
+                    format!("put({v},{})", crate::menu::hex_text(&b))
+                }
+            }
             Op::Data(v) => format!("data({v})"),
             Op::NextId => "next_id()".into(),
             Op::AddNext => "add(next_id())".into(),
